@@ -155,6 +155,12 @@ func c03Case(c *mon.Ctx, idx int, r *mon.Rand) {
 		} else {
 			h.RecordDuration(time.Second)
 			h.RecordDuration(math.MaxInt64)
+			// every way a duration can reach a value histogram changes nothing
+			h.Start().Stop()
+			if sr, ok := h.(tally.StopwatchRecorder); ok {
+				sr.RecordStopwatch(time.Now().Add(-time.Second))
+				tally.NewStopwatch(time.Now().Add(time.Hour), sr).Stop()
+			}
 			for _, x := range vs {
 				h.RecordValue(x)
 			}
